@@ -94,6 +94,7 @@ def check(ctx):
     check_same_gene_order(ctx)
     check_merge_tables_agree(ctx)
     check_dataset_keys_as_given(ctx)
+    check_count_thresholds(ctx)
     # the rows a tree built from the reference file assigns to its leaves
     # are file positions (rule of C10): statistics are summed over them
     from .C10 import check_rows_are_file_positions
@@ -1036,3 +1037,66 @@ def check_dataset_keys_as_given(ctx):
                f'{fmt_term(t)[:80]}, not by the dataset label as given: '
                'the lookup of the dataset\'s cells with this key fails and '
                'falls back to all cells')
+
+
+def check_count_thresholds(ctx):
+    """the counting statistics are defined on log2(CPM + 1): `gt0` counts
+    the cells above 0 (CPM > 0), `gt1` those above 1 (CPM > 1, strictly)
+    and `ge1` those at or above 1, implemented as above 1 - eps with a
+    small positive eps.  Each is a column sum (axis 0) of one comparison
+    of the data with its threshold; a tolerance added to the strict
+    thresholds changes which cells are counted."""
+    from ..core import poly as P
+    db = ctx.db
+    rule = 'R-ARITH/count-thresholds'
+    fi = db.fn('utils.stats_utils:summary_stats_for_chunk')
+    ctx.touch(fi)
+    cfg = cfg_of(fi)
+    rd = rd_of(fi)
+    ex = Expander(fi)
+    want = {"'gt0'": ('exact', 0), "'gt1'": ('exact', 1),
+            "'ge1'": ('below', 1)}
+    seen = set()
+    for n in cfg.nodes:
+        st = n.ast
+        if not (n.id in rd.live and isinstance(st, ast.Assign)
+                and isinstance(st.targets[0], ast.Subscript)):
+            continue
+        k = ex.expand(st.targets[0].slice, n.id)
+        if k[0] != 'const' or k[1] not in want:
+            continue
+        seen.add(k[1])
+        t = ex.expand(st.value, n.id)
+        ok = False
+        why = fmt_term(t)[:70]
+        # (data > T).sum(axis=0)
+        if t[0] == 'call' and T.call_name(t) == 'sum' and (
+                'axis', ('const', '0')) in t[3]:
+            lf = T.lt_form(T.call_receiver(t))
+            if lf is not None and lf[0] == 'Lt' and any(
+                    x[0] == 'attr' and x[2] == 'data'
+                    for x in T.subterms(lf[2])):
+                try:
+                    thr = P.poly(lf[1])
+                except P.NotPolynomial:
+                    thr = None
+                mode, val = want[k[1]]
+                if thr is not None:
+                    c0 = thr.get((), 0)
+                    others = {m: c for m, c in thr.items() if m != ()}
+                    if mode == 'exact':
+                        ok = not others and c0 == val
+                    else:
+                        # 1 - eps, 0 < eps <= 1e-3
+                        ok = not others and 0 < (val - c0) <= 1e-3
+                    why = f'threshold {P.fmt(thr)}'
+        ctx.ob(rule, f'summary_stats_for_chunk:{k[1]}', fi.loc(st), ok,
+               f'{k[1]} counts per gene the cells above its threshold'
+               if ok else
+               f'{k[1]} is {why}: not the column count of cells '
+               + ('strictly above %d' % want[k[1]][1]
+                  if want[k[1]][0] == 'exact' else
+                  'above 1 - eps (at or above 1)'))
+    if seen != set(want):
+        raise AnalysisError('summary_stats_for_chunk: counting statistics '
+                            f'not recognised ({sorted(seen)})')
